@@ -731,6 +731,12 @@ ben('b-txn-batch-set-empty', ['C10', 'C15', 'C16'], (txn,
         }
         for record in records {'''), 'early return for an empty batch')
 
+ben('b-cfg-stale-via-root', ['C01', 'C07', 'C18'], ('akd_core/src/configuration/whatsapp_v1.rs',
+    '''    fn stale_azks_value() -> AzksValue {
+        AzksValue(Self::hash(&EMPTY_VALUE))''',
+    '''    fn stale_azks_value() -> AzksValue {
+        Self::empty_root_value()'''), 'stale value expressed through the helper that is the same digest in this configuration')
+
 out = os.path.join(os.path.dirname(os.path.abspath(__file__)), 'benign.json')
 json.dump({'benign': B}, open(out, 'w'), indent=1)
 print('%d benign variants -> %s' % (len(B), out))
